@@ -41,8 +41,9 @@ AppCall ==
   /\ app' = app + 1 /\ UNCHANGED <<bk, ncb, cbs, cuts, nconn>>
 FutName == IF inside.fut = 0 THEN "" ELSE "f" \o ToString(inside.fut)
 AppRet ==
-  /\ inside # NoCall /\ inside.pc \in {"refuse", "done", "failed"}
-  /\ ApiRet(inside.a, inside.m, IF inside.pc = "done" THEN "" ELSE "error", IF inside.pc = "done" THEN FutName ELSE "")
+  /\ \/ /\ inside # NoCall /\ inside.pc \in {"done", "failed"}
+        /\ ApiRet(inside.a, inside.m, IF inside.pc = "done" THEN "" ELSE "error", IF inside.pc = "done" THEN FutName ELSE "")
+     \/ \E w \in waiting : w.refused /\ ApiRet(w.a, w.m, "error", "")
   /\ UNCHANGED <<app, bk, ncb, cbs, cuts, nconn>>
 
 (* -------------------------------- broker -------------------------------- *)
@@ -82,7 +83,7 @@ FoundInc == IF proc.pkt.id \in IncIds THEN LET x == CHOOSE y \in sessC.inc : y.i
             ELSE [t |-> "none", id |-> 0]
 CbMsg == IF proc.rel THEN (CHOOSE y \in sessC.inc : y.id = proc.pkt.id).msg ELSE proc.pkt.msg
 ClientStep ==
-  \/ E(\E w \in waiting : ApiEnter(w))
+  \/ E(\E w \in waiting : ~w.refused /\ ApiEnter(w))
   \/ /\ In("connect", "start") /\ nconn < 3 /\ Dial(ConnName(nconn + 1), "") /\ nconn' = nconn + 1
      /\ bk' = [bk EXCEPT !.reply = <<>>, !.got = <<>>] /\ UNCHANGED <<app, ncb, cbs, cuts>>
   \/ E(SessReset(""))
@@ -101,6 +102,7 @@ ClientStep ==
   \/ E(C # "" /\ SendDisconnectFail(C))
   \/ E(C # "" /\ CClose(C))
   \/ E(EndWaitDone)
+  \/ E(CleanupEarly)
   \/ E(C # "" /\ down[C] # <<>> /\ CRecv(C, Head(down[C])))
   \/ E(C # "" /\ CRecvErr(C))
   \/ E(CbErr)
